@@ -257,3 +257,13 @@ def wcs_of(s, a, n):
     PENDING.append(z3.Implies(n <= 0, t == 0))
     PENDING.append(z3.Implies(z3.And(a + n >= 0, a + n < z3.Length(s)), z3.And(one >= 0, one <= 2)))   # wcwidth of one character (C11 quantifier)
     return t
+
+
+def as_int_seq(x):
+    """a list of ints as an SMT Seq Int (python lists of ints / int terms are converted)"""
+    if is_sym(x):
+        return x
+    units = [z3.Unit(v if is_sym(v) else z3.IntVal(v)) for v in x]
+    if not units:
+        return z3.Empty(T.SI)
+    return units[0] if len(units) == 1 else z3.Concat(*units)
